@@ -151,11 +151,20 @@ def run(ctx):
             cf = F(rec)
             r2.saw(len(cf.g))
             tf = cf.calls(lambda n: re.search(r'TryFrom<.*>::try_from$|TryInto<.*>::try_into$', n) is not None)
-            casts = [s for b in cf.g for s in cf.bbs[b]['s'] if s[0] == 'A' and s[2][0] == 'cast' and 'IntToInt' in s[2][1] and cf.local_ty(s[1][0]) in ('i8', 'i16', 'i32', 'u8', 'u16', 'u32')]
-            if len(tf) >= 3 and not casts:
-                r2.ok('range-check|%s' % cid.split('::')[-1], detail='%d try_from conversions, no truncating cast' % len(tf))
+            # any integer-to-integer cast of the wide value is a truncation (every target kind is narrower than 128 bits)
+            wide = {l for l in range(len(rec['locals'])) if cf.local_ty(l) in ('i128', 'u128')}
+            casts = [(b, s) for b in cf.g for s in cf.bbs[b]['s'] if s[0] == 'A' and s[2][0] == 'cast' and 'IntToInt' in s[2][1] and
+                     op_local(s[2][2]) is not None and (op_local(s[2][2]) in wide or (_src(cf, op_local(s[2][2])) & wide))]
+            # one range-checked conversion per integer kind of the family
+            kinds = [a for m in fx.matches_in(cid) for a in m['arms'] if any('NumericKind::' in p for p in a['pats'])]
+            nk = sum(1 for a in kinds for p in a['pats'] if 'NumericKind::' in p)
+            if casts:
+                b, st = casts[0]
+                r2.bad('range-check|%s' % cid.split('::')[-1], 'the constructor narrows the 128-bit result with a truncating `as` cast to %s: an out-of-range result wraps instead of raising Overflow' % cf.local_ty(st[1][0]), loc=cf.loc(b))
+            elif len(tf) >= 4 and len(tf) >= nk:
+                r2.ok('range-check|%s' % cid.split('::')[-1], detail='%d try_from conversions for %d kinds, no truncating cast' % (len(tf), nk))
             else:
-                r2.bad('range-check|%s' % cid.split('::')[-1], 'the constructor narrows with a truncating `as` cast (or lost its try_from checks): an out-of-range result wraps instead of raising Overflow', loc=cf.loc(0))
+                r2.bad('range-check|%s' % cid.split('::')[-1], 'the constructor has %d range-checked conversions for %d integer kinds: a kind is built without its range check' % (len(tf), nk), loc=cf.loc(0))
 
     # ------------------------------------------------------------------ R3 / R4 / R6 are placement rules over eval::expr / stmt / call
     r3 = ctx.rule('C02.R3', 'AND/OR short-circuit: the right operand is evaluated only after a test of the left result', floor=2)
